@@ -1,7 +1,7 @@
 #!/bin/bash
-# multi-seed soak of the quick checks on the unchanged tree (false-alarm hunt)
+# multi-seed soak of the quick checks on the unchanged tree (false-alarm hunt); usage: tools/soak.sh [seeds...]
 export VERIF_EVIDENCE_DIR=$PWD/soak-ev VERIF_REPLAY_DIR=$PWD/soak-rp
-for seed in 101 102 103 104 105 106; do
+for seed in ${@:-101 102 103 104 105 106}; do
   for id in C08 C09 C10 C11 C12 C13 C19 C20; do
     ./check $id --tier quick --seed $seed --no-selftest > soak_${id}_$seed.log 2>&1
     echo "seed=$seed $id exit=$? $(grep -m2 '^--- \|^HARNESS' soak_${id}_$seed.log | cut -c1-300)"
